@@ -18,7 +18,7 @@ WORKROOT = os.path.join(VERIF, ".work")
 REPLAYS = os.path.join(VERIF, "replays")
 
 CLANG = "clang++-14"
-IRFLAGS = ["-std=c++17", "-O1", "-fno-access-control", "-fno-vectorize", "-fno-slp-vectorize", "-fno-unroll-loops",
+IRFLAGS = ["-std=c++17", "-O1", "-fno-pic", "-fno-access-control", "-fno-vectorize", "-fno-slp-vectorize", "-fno-unroll-loops",
            "-fsanitize=shift,signed-integer-overflow,integer-divide-by-zero,bounds,unreachable,return",
            "-fsanitize-trap=all", "-I" + STUBS, "-I" + SRC, "-I" + HARNESS, "-S", "-emit-llvm", "-w"]
 NATFLAGS = ["-std=c++17", "-O1", "-g", "-fno-access-control", "-fsanitize=address,undefined",
